@@ -10,8 +10,8 @@ hypotheses, each of which is the statement of a goal pair proved here:
   FUB   SUM_{a<n} SUM_{b<m} F(a,b) = SUM_{b<m} SUM_{a<n} F(a,b)                    (induction on n, uses EXT and L4Q)
   L7    associativity, from L2Q, EXT, FUB and associativity of (*)
 Two-argument summands are function identifiers with definitional row/column views (ROW, COL, RS, CS below: conservative
-definitions, no axioms about the carrier).  Not mechanised: a state made of several variables is treated as ONE summed index
-(the tuple of dropped variables; Reduce over a set of variables is by definition the sum over their joint index set)."""
+definitions, no axioms about the carrier).  A state made of two variables is reduced to ONE summed index by the second lemma
+of this file (joint_index_of_two_state_variables); repeating that for more variables is not mechanised."""
 import z3
 
 from . import lemma
@@ -24,7 +24,7 @@ ROW = z3.Function("ROW", F2, I, Fn)  # ROW(F,a)(b) = F(a,b)
 COL = z3.Function("COL", F2, I, Fn)  # COL(F,b)(a) = F(a,b)
 RS = z3.Function("ROWSUMS", F2, I, Fn)  # RS(F,m)(a) = SUM_{b<m} F(a,b)
 CS = z3.Function("COLSUMS", F2, I, Fn)  # CS(F,n)(b) = SUM_{a<n} F(a,b)
-AX = ["semiring axioms taken from the op tables (assoc/comm of (+),(*), distributivity), each table entry proved in C15", "several state variables are summed as one joint index (definition of Reduce over a set of variables; on paper)"]
+AX = ["semiring axioms taken from the op tables (assoc/comm of (+),(*), distributivity), each table entry proved in C15", "more than two state variables are summed as one joint index by repeating lemma joint_index_of_two_state_variables (that repetition is on paper)"]
 
 f, g, h = z3.Consts("f g h", Fn)
 c, u, v, w = z3.Consts("c u v w", S)
@@ -129,3 +129,41 @@ def hypotheses_consistent():
     s.set("timeout", 10000)
     s.add(SUMDEF, RING, VIEWS, EXTQ, L2Q, L4Q, FUBQ, z3.ForAll([u, v], u == v))  # the one-element semiring is a model of everything used
     return s.check()
+
+
+SHIFT = z3.Function("SHIFT", Fn, I, Fn)  # SHIFT(f,a)(j) = f(a + j)
+SHIFTDEF = z3.ForAll([f, a, j], ap(SHIFT(f, a), j) == ap(f, a + j))
+
+
+def split(f_, a_, b_):
+    return SUM(f_, a_ + b_) == add(SUM(f_, a_), SUM(SHIFT(f_, a_), b_))
+
+
+SPLITQ = z3.ForAll([f, a, b], z3.Implies(A(a >= 1, b >= 1), split(f, a, b)))
+
+
+@lemma("C10")
+def joint_index_of_two_state_variables():
+    """A state made of two variables of sizes n1, n2 >= 1 that is summed variable by variable equals ONE sum over the joint
+    index a1*n2 + a2 < n1*n2 (row-major), so L7 -- stated for one summed index -- covers pairs of state variables; more
+    variables by repeating the step (that outer induction on the number of variables stays on paper).
+      SPLIT  SUM(f, a+b) = SUM(f, a) + SUM(f(a + .), b)                                   (induction on b)
+      FLAT   (forall a1<n1, a2<n2. f(a1*n2 + a2) = G(a1,a2))  ->  SUM(f, n1*n2) = SUM_{a1<n1} SUM_{a2<n2} G(a1,a2)   (induction on n1)"""
+    G = z3.Const("G", F2)
+    n1, n2, a1, a2 = z3.Ints("n1 n2 a1 a2")
+    out = []
+    # SPLIT by induction on b (here the induction variable is n); one ground associativity instance
+    assoc_inst = add(add(SUM(f, a), SUM(SHIFT(f, a), n)), ap(f, a + n)) == add(SUM(f, a), add(SUM(SHIFT(f, a), n), ap(f, a + n)))
+    out += induction("SPLIT", lambda k: split(f, a, k), A(SUMDEF, SHIFTDEF, a >= 1, assoc_inst))
+    flat = lambda k: z3.Implies(
+        z3.ForAll([a1, a2], z3.Implies(A(0 <= a1, a1 < k, 0 <= a2, a2 < n2), ap(f, a1 * n2 + a2) == ap2(G, a1, a2))),
+        SUM(f, k * n2) == SUM(RS(G, n2), k),
+    )
+    # instances of the earlier lemmas used in base and step (n2 >= 1; in the step n >= 1 so n*n2 >= 1)
+    inst_base = ext(f, ROW(G, 0), n2)
+    inst_step = A(split(f, n * n2, n2), ext(SHIFT(f, n * n2), ROW(G, n), n2), z3.Implies(n >= 1, n * n2 >= 1), (n + 1) * n2 == n * n2 + n2)
+    out.append(("FLAT_base", z3.Implies(A(SUMDEF, VIEWS, SHIFTDEF, n2 >= 1, inst_base), flat(z3.IntVal(1))), AX))
+    out.append(("FLAT_step", z3.Implies(A(SUMDEF, VIEWS, SHIFTDEF, n2 >= 1, n >= 1, inst_step, flat(n)), flat(n + 1)), AX))
+    # the instances are instances (and the two arithmetic facts are valid)
+    out.append(("FLAT_lemma_instances", z3.Implies(A(n2 >= 1, n >= 1, EXTQ, SPLITQ), A(inst_base, inst_step)), AX))
+    return out
